@@ -13,6 +13,7 @@
   l-byte string, or None with an even block length (the default counter is two halves of ⌊l/2⌋ bytes).
 -/
 import Proofs.Lemmas.ModeCts
+import Proofs.Lemmas.ModeCounter
 import Proofs.Lemmas.ModeToy
 namespace Proofs.C05
 open Model Model.Mode Proofs.Lemmas.ModeL
@@ -31,6 +32,13 @@ theorem cbc_spec (h : Implements c k) (iv : List Nat) (hiv : IsBlock c.len iv) (
     (hM : Bytes M) (hd : PadDom s c.len M) :
     CBC.enc c iv (toModel s) M = .ok (Spec.Mode.cbc k iv s M) :=
   cbc_enc_of h iv hiv s M (padFacts s c.len h.len_pos M hd hM)
+
+/-- CTR.enc with the default counter is SP 800-38A CTR with the counter blocks
+    T_j = nonce ‖ BE((count0 + j) mod 2^(8·(len − ⌊len/2⌋))): the nonce is the first ⌊len/2⌋ bytes of the initial counter
+    block (all zero when no counter is given), the running half wraps inside itself -/
+theorem ctr_spec (h : Implements c k) (iv : Option (List Nat)) (hiv : CtrDom c.len iv) (M : List Nat) :
+    CTR.enc c iv M = .ok (Spec.Mode.ctr k (iv.getD (List.replicate c.len 0)) M) :=
+  ctr_enc_spec h iv hiv M
 
 /-! ### decryption inverts encryption (with an equally configured object in any padding state `st`) -/
 
